@@ -12,6 +12,6 @@ Extraction "model.ml"
   strip_in_place reorder_ops reorder_in_place feed o_init ci_add clone_model
   encode_dict decode_dict try_init file_read_at build_source_index print_archive compress_model unpack fetch_descs PKG_VERSION_LIB PKG_VERSION_CLI source_chunks
   read_chunks_http http_read_at io_read_chunks
-  clone_cmd_model compress_cmd_model open_and_clone open_and_clone_bytes open_and_clone_bytes_w http_clone
+  clone_cmd_model compress_cmd_model open_output open_and_clone open_and_clone_bytes open_and_clone_bytes_w http_clone
   reorder_ops_iter hci_add hci_contains hci_remove hci_get hs_from
   N.of_nat N.to_nat.
